@@ -38,6 +38,10 @@ func runChild(n int, run func(i int) ([]keyed, string)) {
 		b, _ := json.Marshal(cellResult{Index: i, Diffs: ds, Info: info})
 		fmt.Fprintf(w, "@@END %s\n", b)
 		w.Flush()
+		if strings.HasPrefix(info, "RESTART") {
+			// the cell left a runaway goroutine behind (a call that did not return within its watchdog): a fresh process for the rest
+			os.Exit(0)
+		}
 	}
 	fmt.Fprintln(w, "@@DONE")
 	w.Flush()
@@ -69,7 +73,7 @@ func runInChildren(t *testing.T, layer string, n int, perChildTimeout time.Durat
 			<-done
 			timedOut = true
 		}
-		running, finished := -1, false
+		running, finished, lastEnded := -1, false, from-1
 		for _, line := range strings.Split(out.String(), "\n") {
 			switch {
 			case strings.HasPrefix(line, "@@BEGIN "):
@@ -78,6 +82,7 @@ func runInChildren(t *testing.T, layer string, n int, perChildTimeout time.Durat
 				var cr cellResult
 				if json.Unmarshal([]byte(strings.TrimPrefix(line, "@@END ")), &cr) == nil && cr.Index >= 0 && cr.Index < n {
 					results[cr.Index] = cr
+					lastEnded = cr.Index
 				}
 				running = -1
 			case strings.HasPrefix(line, "@@DONE"):
@@ -86,6 +91,10 @@ func runInChildren(t *testing.T, layer string, n int, perChildTimeout time.Durat
 		}
 		if finished {
 			break
+		}
+		if running < 0 && lastEnded >= from {
+			from = lastEnded + 1 // the child asked for a fresh process
+			continue
 		}
 		if running < 0 {
 			t.Fatalf("the child process of layer %s ended without running a cell:\n%s", layer, tail(out.String(), 3000))
